@@ -185,6 +185,8 @@ int cp_pbpsi_int(bn_t *z, size_t *len, const g2_t *d, const bn_t *x,
 					if (gt_cmp(e, t[j]) == RLC_EQ && !gt_is_unity(e)) {
 						bn_copy(z[*len], x[k]);
 						(*len)++;
+						/* An element is in the intersection once. */
+						break;
 					}
 				}
 			}
